@@ -37,6 +37,9 @@ pub enum Act {
     /// epoch: every node decays by num/1000 (unsigned types only)
     Decay { pm: u16 },
     Check { n: u8 },
+    /// a misconfigured peer (same shape, different seed - optionally one whose 16-bit seed hash
+    /// collides with the cluster's) offers its sketch: the merge must be refused
+    Stranger { to: u8, collide: bool, items: u8 },
 }
 
 pub enum Cm {
@@ -348,6 +351,7 @@ impl Scenario for C08 {
                 14..=15 => acts.push(Act::Deliver { pick: if rng.chance(1, 2) { 0 } else { rng.next_u32() } }),
                 16 => acts.push(Act::Drop { pick: rng.next_u32() }),
                 17 => acts.push(if rng.chance(1, 2) { Act::Halve } else { Act::Decay { pm: *rng.pick(&[1u16, 250, 500, 900, 999, 1000]) } }),
+                18 if rng.chance(1, 6) => acts.push(Act::Stranger { to: rng.below(nodes as u64) as u8, collide: rng.chance(2, 3), items: rng.range(1, 40) as u8 }),
                 _ => acts.push(Act::Check { n: rng.below(nodes as u64) as u8 }),
             }
         }
@@ -505,6 +509,32 @@ impl Scenario for C08 {
                     }
                 }
                 Act::Check { n } => check_node("node", &nodes[*n as usize % nn], &probes, true, st)?,
+                Act::Stranger { to, collide, items } => {
+                    // the nearest other seed, or the nearest one with the same 16-bit seed hash
+                    let want = crate::refhash::seed_hash(cfg.seed);
+                    let mut other_seed = cfg.seed.wrapping_add(1);
+                    loop {
+                        let h = crate::refhash::seed_hash(other_seed);
+                        if h != 0 && (!*collide || h == want) {
+                            break;
+                        }
+                        other_seed = other_seed.wrapping_add(1);
+                    }
+                    let mut stranger = Cm::new(ty, hashes, buckets, other_seed);
+                    for i in 0..(*items).min(60) as u64 {
+                        stranger.update(i, 1);
+                    }
+                    let nd = &mut nodes[*to as usize % nn];
+                    if nd.model.total.saturating_add(*items as u64) > max {
+                        continue;
+                    }
+                    st.fault(if *collide { "stranger_with_colliding_seed_hash" } else { "stranger_with_other_seed" });
+                    // refusing (the documented panic) is the correct outcome; the replica is untouched
+                    if lib_call("CountMinSketch::merge(stranger)", || nd.sk.merge(&stranger)).is_ok() {
+                        return Err(Violation::new("C08.merged_sketch_of_other_seed", format!("merge accepted a sketch built with seed {other_seed} into a sketch with seed {} (seed hashes {:#x} / {:#x}): its rows are hashed differently, so the sum no longer bounds any item's weight from above", cfg.seed, crate::refhash::seed_hash(other_seed), want)));
+                    }
+                    check_node("node(after refusing a stranger)", nd, &probes, true, st)?;
+                }
             }
         }
         let pending = std::mem::take(&mut net);
